@@ -496,6 +496,29 @@ func famFirstAndTwin(r *Rand) *seqScenario {
 	return b.sc
 }
 
+// famPoolIssuer: a bounded pool filling up while one submission is still busy storing a new issuer: whatever the order
+// in which the code checks the bound and uploads issuers, a round never sequences more than PoolSize entries.
+func famPoolIssuer(r *Rand) *seqScenario {
+	pool := 1 + r.Intn(3)
+	b := newScb("pool", pool, r)
+	b.boot(0)
+	b.grow(0, r.Intn(2))
+	slow := b.entry(seqEntrySpec{Kind: "rand", Issuers: []int{20 + r.Intn(5)}})
+	b.cmd(seqCmd{Op: "submit", Inst: 0, Entry: slow, Low: r.Chance(30)})
+	if r.Chance(60) {
+		b.cmd(seqCmd{Op: "step", Inst: 0, Pick: 0}) // the issuer fetch (not found); its upload is now parked
+	}
+	for k := 0; k < pool+r.Intn(2); k++ {
+		b.cmd(seqCmd{Op: "submit", Inst: 0, Entry: b.small(), Low: r.Chance(30)})
+		b.cmd(seqCmd{Op: "run", Inst: 0, Max: 0})
+	}
+	b.cmd(seqCmd{Op: "run", Inst: 0}) // the issuer upload goes through: the slow submission reaches the pool, or is refused
+	b.roundOK(0)
+	b.submitN(0, 1, false)
+	b.roundOK(0)
+	return b.sc
+}
+
 // famPool: admission control with small pools and priorities.
 func famPool(r *Rand) *seqScenario {
 	pool := 1 + r.Intn(4)
@@ -890,6 +913,11 @@ func genScenarios(o *Opts, r *Rand) []*seqScenario {
 	if fam("legacy") {
 		for i := 0; i < 10*mul; i++ {
 			add(famLegacy(r.Fork()))
+		}
+	}
+	if fam("pool") {
+		for i := 0; i < 10*mul; i++ {
+			add(famPoolIssuer(r.Fork()))
 		}
 	}
 	if fam("pool") {
